@@ -33,8 +33,8 @@ Print Assumptions C11_defaults_by_precedence.
 
 (* (4) Daemon order on any combination list: Method.Call / InnerCall / continue-whopper (index based, as in
    whoploc.go) run the whoppers outermost first, then every :before first to last, the first primary, every
-   :after last to first -- provided the list has at most two whoppers (see (9)). *)
-Theorem C11_send_order : forall cs vars arg, g_whop cs = true ->
+   :after last to first -- for any number of whoppers (since repo_fixes/C10-2.patch; before it: at most two). *)
+Theorem C11_send_order : forall cs vars arg,
   method_call cs (inner_call true false vars arg cs) = s_send vars arg cs.
 Proof. exact send_order. Qed.
 Print Assumptions C11_send_order.
@@ -42,16 +42,14 @@ Print Assumptions C11_send_order.
 (* (5) (1)+(4): for every admissible history, (send (make-instance f) m) is what the specification computes from
    the forms: whoppers, :before daemons in precedence order, first primary in that order (gettable/settable
    accessors are primaries of the declaring flavor), :after daemons in reverse order; invalid-method when no
-   flavor of the precedence list has a method for m.  Guard: at most two whoppers apply. *)
+   flavor of the precedence list has a method for m.  No guard. *)
 Theorem C11_send_follows_precedence : forall h f m arg, wf h = true -> defined (decls h) f = true ->
-  g_whop (s_table (spec h) f m) = true ->
   send (final h) f m arg = match s_table (spec h) f m with [] => ([], RNoMethod) | cs => s_send (s_var (decls h) f) arg cs end.
 Proof. exact send_equal_spec. Qed.
 Print Assumptions C11_send_follows_precedence.
 
 (* (6) the same for the bound path (Instance.BoundReceive -> BoundCall / BoundInnerCall, repaired). *)
 Theorem C11_bound_send_follows_precedence : forall h f m, wf h = true -> defined (decls h) f = true ->
-  g_whop (s_table (spec h) f m) = true ->
   bound_send fixed (final h) f m = match s_table (spec h) f m with [] => ([], RNoMethod) | cs => s_send (s_var (decls h) f) None cs end.
 Proof. exact bound_send_equal_spec. Qed.
 Print Assumptions C11_bound_send_follows_precedence.
@@ -135,14 +133,16 @@ Theorem C11_send_never_out_of_fuel : forall st f m arg, snd (send st f m arg) <>
 Proof. exact send_total. Qed.
 Print Assumptions C11_send_never_out_of_fuel.
 
-(* (10) Refuted for the code as it still is: with whoppers on three consecutive combinations the third is skipped
-   (WhopLoc.Continue hands the next whopper a location one past its index).  Known finding, guard g_whop. *)
-Theorem C11_third_whopper_skipped_refuted :
-  wf h_whoppers = true /\ g_whop (s_table (spec h_whoppers) 3 (MUser 1)) = false /\
-  send (final h_whoppers) 3 (MUser 1) None = ([Ev 33; Ev 23; Ev 30; EvEnd 23; EvEnd 33], RVal 30) /\
-  s_send (s_var (decls h_whoppers) 3) None (s_table (spec h_whoppers) 3 (MUser 1)) = ([Ev 33; Ev 23; Ev 13; Ev 30; EvEnd 13; EvEnd 23; EvEnd 33], RVal 30).
+(* (10) Refuted for the ORIGINAL WhopLoc.Continue (it handed the next whopper a location one past its index): with
+   whoppers on three consecutive combinations the third was skipped.  Repaired by repo_fixes/C10-2.patch (whoploc.go
+   is shared with the generic functions of C10); the repaired model meets S on the same history. *)
+Theorem C11_original_third_whopper_skipped_refuted :
+  wf h_whoppers = true /\
+  send_orig (final h_whoppers) 3 (MUser 1) None = ([Ev 33; Ev 23; Ev 30; EvEnd 23; EvEnd 33], RVal 30) /\
+  s_send (s_var (decls h_whoppers) 3) None (s_table (spec h_whoppers) 3 (MUser 1)) = ([Ev 33; Ev 23; Ev 13; Ev 30; EvEnd 13; EvEnd 23; EvEnd 33], RVal 30) /\
+  send (final h_whoppers) 3 (MUser 1) None = ([Ev 33; Ev 23; Ev 13; Ev 30; EvEnd 13; EvEnd 23; EvEnd 33], RVal 30).
 Proof. exact third_whopper_history. Qed.
-Print Assumptions C11_third_whopper_skipped_refuted.
+Print Assumptions C11_original_third_whopper_skipped_refuted.
 
 (* (11) Refuted for the ORIGINAL code (model version [original] = the code before repo_fixes/C11-1..3):
    insertMethod put a late daemon of a base flavor in the wrong place (and differently for two orders of the
@@ -185,7 +185,6 @@ Print Assumptions C11_original_bound_after_order_refuted.
 Theorem C11_example_history :
   wf h_example = true /\ writes_once h_example /\ defined (decls h_example) 4 = true /\
   fullprec (decls h_example) 4 = [4; 2; 1; 3; 0] /\
-  g_whop (s_table (spec h_example) 4 (MUser 1)) = true /\
   send (final h_example) 4 (MUser 1) None = ([Ev 23; Ev 13; Ev 21; Ev 31; Ev 40; Ev 12; EvEnd 13; EvEnd 23], RVal 40) /\
   send (final h_example) 4 (MUser 0) None = ([Ev 15; Ev 36], RNil) /\
   send (final h_example) 4 (MGet 0) None = ([], RVal 102) /\ send (final h_example) 4 (MGet 1) None = ([], RNil) /\
